@@ -1,5 +1,6 @@
 import AtsimModel.Driver.Json
 import AtsimModel.Model.Ini
+import AtsimModel.Model.Interp
 namespace Atsim.Drv
 open Lean
 
@@ -43,5 +44,37 @@ def handleIni (op : String) (j : Json) : Except String Json := do
           ("items", arrJ ((listItems cfg r).map fun (s, k, v) => arrJ [Json.str s, Json.str k, Json.str v])),
           ("keys", arrJ (r.sections.map fun p => arrJ [Json.str p.1, arrJ ((sectionKeys cfg r p.1).map Json.str)]))]
   | _ => throw s!"unknown ini op {op}"
+
+end Atsim.Drv
+
+namespace Atsim.Drv
+open Lean
+
+def parsePart (j : Json) : Except String Part := do
+  match (← j.getArr?).toList with
+  | [.str "lit", .str s] => return .lit s
+  | [.str "ref", .str n] => return .ref n
+  | [.str "xref", .str s, .str n] => return .xref s n
+  | _ => throw "bad part"
+
+def parseTKVs (j : Json) : Except String (List (String × TVal)) := do
+  (← j.getArr?).toList.mapM fun p => do
+    match (← p.getArr?).toList with
+    | [.str k, v] => return (k, ← (← v.getArr?).toList.mapM parsePart)
+    | _ => throw "bad templated kv"
+
+def handleInterp (op : String) (j : Json) : Except String Json := do
+  match op with
+  | "resolve" =>
+    let secs ← (← getArr j "sections").mapM fun s => do
+      match (← s.getArr?).toList with
+      | [.str n, kvs] => return (n, ← parseTKVs kvs)
+      | _ => throw "bad section"
+    let vars ← parseTKVs (← j.getObjVal? "vars")
+    let ini : TIni := ⟨secs, vars⟩
+    -- resolve every value of every section
+    return arrJ (secs.map fun (n, kvs) => arrJ [Json.str n, arrJ (kvs.map fun (k, v) =>
+      arrJ [Json.str k, match resolveVal ini 10 n v with | some t => Json.str t | none => Json.null])])
+  | _ => throw s!"unknown interp op {op}"
 
 end Atsim.Drv
